@@ -59,7 +59,7 @@ def _input_case(tree, vals):
 def _output_case(tree, vals):
     calls = []
     for k, (v, _, _) in enumerate(vals):
-        calls += [["Raw%d" % k, []], ["Out%d" % k, []], ["Svc%d" % k, []], ["Bkm", [["x", v]]]]
+        calls += [["Raw%d" % k, []], ["Out%d" % k, []], ["Svc%d" % k, []], ["Bkm", [["x", v]]], ["MSvc%d" % k, []]]
     return {"op": "model", "xml": g.output_model_xml(tree, [v for v, _, _ in vals]), "calls": calls}
 
 
@@ -233,7 +233,7 @@ def _check_output(rep, tree, case_xml_for, v, kind, at, raw, routes):
     for (cls, tail), lst in fails.items():
         side = _merge_side("output", [r[0] for r in routes], [x[0] for x in lst])
         route, call, o = lst[0]
-        replay = {"variant": "dbg", "case": {"op": "model", "xml": case_xml_for(v), "calls": [call if call[0] == "Bkm" else [call[0][:3] + "0", []]]}, "expected": exp, "observed": o, "tree": g.tree_shape(tree, True), "violation_kind": kind}
+        replay = {"variant": "dbg", "case": {"op": "model", "xml": case_xml_for(v), "calls": [call if call[0] == "Bkm" else [call[0].rstrip("0123456789") + "0", []]]}, "expected": exp, "observed": o, "tree": g.tree_shape(tree, True), "violation_kind": kind}
         if cls == "panic":
             rep.violation("%s:%s:%s" % (side, tail, _root_class(tree)), "panic evaluating %s producing %s (output type %s): %s" % (call[0], g.feel_literal(v), g.tree_shape(tree, True), o.get("msg")), replay)
         else:
@@ -320,19 +320,22 @@ def run(rep, tier, seed):
                 v, kind, at = vals[-1]
                 rep.sample({"side": "input", "type": g.tree_shape(tree, True), "offered": _lit(v), "violation": "%s at %s" % (kind, g.node_kind(at)), "logic_saw": _lit(rs[2 * (len(vals) - 1)].get("v"))})
         else:
-            if len(rs) != 4 * len(vals):
+            if len(rs) != 5 * len(vals):
                 raise runner.Inconclusive("result count mismatch (output)")
             for k, (v, kind, at) in enumerate(vals):
                 routes = [
-                    ("decision", ["Out%d" % k, []], rs[4 * k + 1]),
-                    ("service", ["Svc%d" % k, []], rs[4 * k + 2]),
-                    ("bkm", ["Bkm", [["x", v]]], rs[4 * k + 3]),
+                    ("decision", ["Out%d" % k, []], rs[5 * k + 1]),
+                    ("service", ["Svc%d" % k, []], rs[5 * k + 2]),
+                    ("bkm", ["Bkm", [["x", v]]], rs[5 * k + 3]),
                 ]
-                _check_output(rep, tree, lambda val, tree=tree: g.output_model_xml(tree, [val]), v, kind, at, rs[4 * k], routes)
+                if g.multi_output_parts(v):
+                    routes.append(("service-of-several-output-decisions", ["MSvc%d" % k, []], rs[5 * k + 4]))
+                    rep.bump("multi_output_service_results")
+                _check_output(rep, tree, lambda val, tree=tree: g.output_model_xml(tree, [val]), v, kind, at, rs[5 * k], routes)
             if "output" not in sampled and len(vals) > 3:
                 sampled.add("output")
                 v, kind, at = vals[1]
-                rep.sample({"side": "output", "type": g.tree_shape(tree, True), "produced": _lit(v), "violation": "%s at %s" % (kind, g.node_kind(at)), "decision_returned": _lit(rs[5].get("v")), "bkm_returned": _lit(rs[7].get("v"))})
+                rep.sample({"side": "output", "type": g.tree_shape(tree, True), "produced": _lit(v), "violation": "%s at %s" % (kind, g.node_kind(at)), "decision_returned": _lit(rs[6].get("v")), "bkm_returned": _lit(rs[8].get("v"))})
     _nest(rep.extra)
     probes = {}
     for (name, v), res in zip(SPELLING_PROBES, results[probe_at:]):
